@@ -198,10 +198,13 @@ func runDisp(rec *Rec, sc *DispScenario, n int) {
 	tapOut0, tapIn0 := 0, 0
 	if c.Pre == "deadlinewrite" {
 		// the serving session writes a message of its own under a context deadline; the deadline then passes
+		// (the hooks this preparation runs on either side are not the observed exchange's)
+		atomic.StoreInt32(&PlugPause, 1)
 		pctx, cancel := context.WithTimeout(context.Background(), 4*time.Millisecond)
 		ss.Push("/not/served/by/the/client", &Arg{Tag: "pre"}, erpc.WithContext(pctx))
 		time.Sleep(8 * time.Millisecond)
 		cancel()
+		atomic.StoreInt32(&PlugPause, 0)
 		// the frames of this preparation are not part of the observed exchange
 		o0, i0 := a.Tapped()
 		tapOut0, tapIn0 = len(o0), len(i0)
